@@ -370,6 +370,17 @@ fn build_ops<K: Kind>(
                     b.with_typed_qualifier(Some(RepositoryUrl::from(u.as_str())))
                 },
                 "r" => b.with_typed_qualifier(None::<RepositoryUrl>),
+                // typed qualifiers declared by the user of the crate (KEY mixed-case / odd but valid / invalid: the documented panic)
+                "W" => match f[1] {
+                    "0" => b.with_typed_qualifier(Some(BuildTag(uh(f[2])))),
+                    "1" => b.with_typed_qualifier(Some(Odd(uh(f[2])))),
+                    _ => b.with_typed_qualifier(Some(BadKey(uh(f[2])))),
+                },
+                "w" => match f[1] {
+                    "0" => b.with_typed_qualifier(None::<BuildTag>),
+                    "1" => b.with_typed_qualifier(None::<Odd>),
+                    _ => b.with_typed_qualifier(None::<BadKey>),
+                },
                 "D" => {
                     let _ = b.parts.qualifiers.insert(uh(f[1]), uh(f[2]));
                     b
@@ -881,8 +892,44 @@ pub fn run(line: &str) -> String {
 
 thread_local! { pub static SCRATCH: RefCell<Vec<String>> = RefCell::new(vec![]); }
 
+// Non-termination watchdog (C06 "fails to terminate"): the index of the case being worked on and a busy flag; a watchdog thread ends the
+// process with exit code 3 and "HANGIDX <index>" on stderr when one case has been running longer than VERIF_HANG_MS (default 10 s).
+// vcheck then records HANG for that case and resumes behind it.
+static DONE: std::sync::atomic::AtomicU64 = std::sync::atomic::AtomicU64::new(0);
+static BUSY: std::sync::atomic::AtomicBool = std::sync::atomic::AtomicBool::new(false);
+fn spawn_watchdog() {
+    use std::sync::atomic::Ordering::SeqCst;
+    let limit = std::time::Duration::from_millis(std::env::var("VERIF_HANG_MS").ok().and_then(|v| v.parse().ok()).unwrap_or(10_000));
+    std::thread::spawn(move || {
+        let mut last = u64::MAX;
+        let mut since = std::time::Instant::now();
+        loop {
+            std::thread::sleep(std::time::Duration::from_millis(200));
+            let e = DONE.load(SeqCst);
+            if !BUSY.load(SeqCst) || e != last {
+                last = e;
+                since = std::time::Instant::now();
+                continue;
+            }
+            if since.elapsed() > limit {
+                eprintln!("HANGIDX {}", e);
+                std::process::exit(3);
+            }
+        }
+    });
+}
+fn guarded<F: FnOnce() -> String>(f: F) -> Option<String> {
+    use std::sync::atomic::Ordering::SeqCst;
+    BUSY.store(true, SeqCst);
+    let r = catch_unwind(AssertUnwindSafe(f)).ok();
+    BUSY.store(false, SeqCst);
+    DONE.fetch_add(1, SeqCst);
+    r
+}
+
 fn main() {
     std::panic::set_hook(Box::new(|_| {}));
+    spawn_watchdog();
     let args: Vec<String> = std::env::args().collect();
     let mode = args.get(1).map(|s| s.as_str()).unwrap_or("run");
     let stdin = std::io::stdin();
@@ -892,15 +939,15 @@ fn main() {
         "run" => {
             for line in stdin.lock().lines() {
                 let line = line.unwrap();
-                let r = catch_unwind(AssertUnwindSafe(|| run(&line)));
-                writeln!(out, "{}", r.unwrap_or_else(|_| "PANIC".into())).unwrap();
+                let r = guarded(|| run(&line));
+                writeln!(out, "{}", r.unwrap_or_else(|| "PANIC".into())).unwrap();
             }
         },
         "oracle" => {
             for line in stdin.lock().lines() {
                 let line = line.unwrap();
-                let r = catch_unwind(AssertUnwindSafe(|| oracle::check(&line)));
-                writeln!(out, "{}", r.unwrap_or_else(|_| "FAIL C06 panic in oracle path".into())).unwrap();
+                let r = guarded(|| oracle::check(&line));
+                writeln!(out, "{}", r.unwrap_or_else(|| "FAIL C06 panic in oracle path".into())).unwrap();
             }
         },
         "probe" => {
